@@ -42,12 +42,18 @@ def run(ctx):
         def fname(f):
             return "table" if f[3].startswith("table[") else ("bmPages" if f[3].startswith("bmPages") else f[3])
 
+        def bkind(b, k):
+            # a cache block without records is a kind of its own: a walk that only counts records makes no progress on it
+            if k == "cache" and mkimage.get32(data, b * 512 + 12) == 0:
+                return "cache0"
+            return k
+
         def tkind(f, t):
             if t == f[0]:
                 return "self"
             if t in pointed_by.get(f[0], ()):
                 return "pred"
-            return kind_of.get(t, "free" if t not in owned else "data")
+            return bkind(t, kind_of.get(t, "free" if t not in owned else "data"))
         # every class (kind of block, field, kind of target) gets its share of the budget before any class gets a second case:
         # a redirect of a data pointer to a header block is a different case from a redirect to another data block
         classes = {}
@@ -56,6 +62,9 @@ def run(ctx):
             for k, bl in by_kind.items():
                 if k != "boot":
                     targets.add(rng.choice(bl))
+            empties = [b for b in by_kind.get("cache", []) if mkimage.get32(data, b * 512 + 12) == 0]
+            if empties:
+                targets.add(rng.choice(empties))
             hk = mkimage.get32(data, f[0] * 512 + 4)
             if f[4] == "ofsdata" and 2 <= hk < n:
                 targets.add(hk)             # the file header the data block belongs to
@@ -63,7 +72,7 @@ def run(ctx):
             if free:
                 targets.add(rng.choice(free))
             for t in targets:
-                classes.setdefault((f[4], fname(f), tkind(f, t)), []).append(([f], [t]))
+                classes.setdefault((bkind(f[0], f[4]), fname(f), tkind(f, t)), []).append(([f], [t]))
         for c in classes.values():
             rng.shuffle(c)
         order = sorted(classes)
